@@ -31,8 +31,8 @@ CLAIMED = {
         text="Machine-checked proof (Coq) over the regenerated constructor IR: for every non-ATA class and ALL arguments, data-in is a zero "
              "buffer exactly as long as the standard's transfer (allocation length / transfer length x block size / 0), data-out is the "
              "caller's data / an empty buffer / the composed parameter list, never None (generic theorem xfer_sound + per-class decidable "
-             "check against Spec xfer_specs). ATA PASS-THROUGH(12/16): complete sweep of 384 SAT flag combinations inside the kernel "
-             "(finite, stated as such). PARAMETER LIST LENGTH = len(data-out) is decided syntactically on the IR plus a lemma about len().",
+             "check against Spec xfer_specs). ATA PASS-THROUGH(12/16): complete sweep of 2304 combinations inside the kernel (T_LENGTH x BYT_BLOK x T_TYPE x T_DIR x block size x "
+             "extra_tl x caller data x COUNT in {0, 5, 256} x FEATURES in {0, 3}; finite, stated as such; COUNT / FEATURES 0 announce no data). PARAMETER LIST LENGTH = len(data-out) is decided syntactically on the IR plus a lemma about len().",
         ref="DESIGN.md §4 C03",
         note="As C01. Partial: the ATA statement is a finite flag sweep with the other arguments fixed; READ CD's 3072 bytes/sector is read "
              "as sufficiency. The transfer set-up of ISCSIDevice.execute (direction, expected transfer length, Task / command arguments) and the "
@@ -110,7 +110,7 @@ CLAIMED = {
              "enumeration inside the kernel over all 32 device types x 5 current sets shows SBC for 0/4/7, SSC for 1, MMC for 5, SMC for 8 and "
              "a set with the primary commands otherwise; the type is bits 4:0 of byte 0 for every buffer (qualifier cannot leak); attach is "
              "one standard INQUIRY; for every history of attaches over several device objects the device attached last carries the set of "
-             "its own type and no other device changes. Tied by 900 attach histories (all 256 first bytes, fresh/re-used devices and facades; the rest of the INQUIRY data all zeroes, all ones, high bytes, random).",
+             "its own type and no other device changes. Tied by 930 attach histories (all 256 first bytes, fresh/re-used devices and facades; the rest of the INQUIRY data all zeroes, all ones, high bytes, random; also over three objects of the real SCSIDevice / ISCSIDevice classes).",
         ref="DESIGN.md §4 C16",
         note="Both transports share the facade code path; the histories run over a recording device object (the facade works over any device object).",
         technique="Coq: kernel enumeration over regenerated tables + history lemma + vm_compute correspondence"),
@@ -259,7 +259,7 @@ CLAIMED = {
              "operation codes. Finite domains, exhaustive, bounds in the statements. The tables are judged a second time as a caller finds them AFTER the library was used in the process (a facade attached and re-attached to devices of all 32 "
              "peripheral device types x 5 fillings of the other INQUIRY bytes, every facade method called once). A name is looked up as an ordinary attribute of class Enum, whose members are compared as syntax trees with the modelled text on every run "
              "(C14_lookup_is_the_table: no __getattr__ fallback), and every name some set lists, in every CDB size variant, is looked up in every set that does NOT list it: it must fail or give the T10 value of that name. "
-             "The table every ATTACHED device object carries (all 32 types) is dumped and judged like the shared sets.",
+             "The table every ATTACHED device object carries (all 32 types) is dumped and judged like the shared sets; before that the application makes its own OpCode objects with listed names / values and changes them through the setters.",
         ref="DESIGN.md §4 C14",
         note="Trusted: Coq kernel + vm_compute; the translator (validated against runtime reflection of the Enum objects on every run); "
              "Spec/T10Opcodes.v and Spec/SAM.v (my transcription of T10's assignments); 8-line hand model of the range-table "
